@@ -33,6 +33,7 @@ class FnTr(ExprMixin, MethodMixin, StmtMixin):
         self.last_comment = None
         self.sig = None
         self.param_vars = []
+        self.tparams = []
 
     # -- errors / source
     def fail(self, msg, line=None):
@@ -111,6 +112,9 @@ class FnTr(ExprMixin, MethodMixin, StmtMixin):
             fns = [b for b in ty.bounds if b.kind == 'TFn']
             if len(fns) == 1:
                 return self.conv(fns[0])
+            if len(ty.bounds) == 1 and ty.bounds[0].kind == 'TPath' and ty.bounds[0].segs[-1][0] in ('Read', 'Write'):
+                # `dyn Read` / `dyn Write`: an explicit scripted device (Gen/RustShimIO.lean)
+                return ('reader',) if ty.bounds[0].segs[-1][0] == 'Read' else ('writer',)
             self.fail('`impl Trait` type other than a single Fn bound', ty.line)
         name, args = ty.segs[-1]
         if len(ty.segs) == 2 and ty.segs[0][0] == 'Self' and name in self.item.assoc:
@@ -124,6 +128,9 @@ class FnTr(ExprMixin, MethodMixin, StmtMixin):
         if name in NEWTYPES: return NEWTYPES[name]
         if name == 'BddNode': return NODE
         if name == 'BigInt': return BIG
+        if name == 'Ordering': return ('ordering',)
+        if name == 'Error' and len(ty.segs) == 2 and ty.segs[0][0] == 'io': return ('ioerr',)
+        if name == 'ErrorKind': return ('errkind',)
         if name == 'Self':
             if self.owner is None: self.fail('`Self` outside an impl', ty.line)
             return self.owner_type(self.owner, ty.line)
@@ -177,10 +184,22 @@ class FnTr(ExprMixin, MethodMixin, StmtMixin):
     # -- header
     def header(self, lean_name):
         a = self.ast
-        for g, bounds in a.generics:
+        # type parameters of the enclosing function are not visible in an inner fn (Rust), each fn declares its own
+        for g, bounds in sorted(a.generics, key=lambda gb: 0 if not gb[1] else 1):
             fns = [b for b in bounds if b.kind == 'TFn']
             if len(fns) == 1:
                 self.generics[g] = self.conv(fns[0])
+            elif len(bounds) == 1 and bounds[0].kind == 'TPath' and bounds[0].segs[-1][0] == 'Rng':
+                # a random number generator is the list of its recorded coin flips
+                self.generics[g] = ('rng',)
+            elif len(bounds) == 1 and bounds[0].kind == 'TPath' and bounds[0].segs[-1][0] == 'Hasher':
+                # a hasher is the sequence of its writes: (width in bytes, value)
+                self.generics[g] = ('vec', ('tuple', (INT('usize'), INT('usize'))))
+                self.hashers = getattr(self, 'hashers', set()) | {g}
+            elif not bounds:
+                # an unconstrained type parameter becomes an implicit Lean type argument
+                self.generics[g] = ('tparam', g)
+                self.tparams.append(g)
         params = []
         if a.self_kind is not None:
             if self.owner is None: self.fail('self parameter outside an impl')
@@ -192,6 +211,7 @@ class FnTr(ExprMixin, MethodMixin, StmtMixin):
             params.append((p.name, lean_ident(p.name), self.conv(ty), mutref, p.mut))
         ret = self.conv(a.ret) if a.ret is not None else UNIT
         sig = Sig(lean_name, [(ln, t, mr) for _, ln, t, mr, _ in params], ret, a.self_kind is not None, item=self.item)
+        sig.tparams = list(self.tparams)
         self.sig = sig
         self.params_full = params
         return sig
@@ -335,6 +355,8 @@ class Translator:
     def render(self, ctx, sig, lines):
         sf = self.struct_fields
         params = []
+        for tp in getattr(sig, 'tparams', []):
+            params.append('{%s : Type}' % tp)
         if sig.fuel:
             params.append('(fuel : Nat)')
         for (ln, t, mr) in sig.params:
